@@ -63,6 +63,13 @@ AREAS = {
         "targets": ["Base/Str.vo", "Proofs/MapperProofs.vo", "Proofs/MapperAttribProofs.vo"],
         "property": "C05 C09 C15 (makeTypeMatch / canNameMatch / matchType of internal/mapper/match.go = step_match pass of Model/Mapper.v)",
     },
+    "ctorshadow": {
+        "module": "CtorShadowGen",
+        "bridge": "Bridge/CtorShadowBridge.v",
+        "prims": ["GoPrims", "CtorPrims"],
+        "targets": ["Base/Str.vo", "Proofs/CtorFlattenProofs.vo"],
+        "property": "C02 C03 C11 (checkShadowAndAppend of internal/constructor/fields.go = mark_pass / check_shadow_and_append of Model/Ctor.v)",
+    },
     "enum": {
         "module": "EnumGen",
         "bridge": "Bridge/EnumBridge.v",
